@@ -57,7 +57,7 @@ def gen_scenarios(c, nref, lastwait, nspawn):
         for sig, latch in (("TERM", "late"), ("KILL", "early")):
             k += 1
             scs.append(cases.sc_token_restart(f"s{k:04d}", sig, "running:1", latch))
-        steps = dict(one=3, chain2=5, indep2=9)
+        steps = dict(one=3, chain2=6, indep2=11)
         per = {}
         for kind in ("one", "chain2", "indep2"):
             off = rng.randrange(steps[kind])
